@@ -4,6 +4,8 @@ import gen as G
 import conv
 
 COQ_IMPORTS = ['Model.CFG', 'Model.Chomsky', 'Model.CYK', 'Judge.C07_judge']
+PDA_FREE = True      # no PDA is involved: the recycling pass runs with GambaTools.pda_epsilon_closure_max_iterations = 3
+LOG_SAFE = True      # no printed output is read back: the recycling pass runs with GambaTools.enable_logging = True
 RULE = ('grammars over variables {S,A,B,..} and terminals {a,b}: all one-rule grammars and a seeded sample of two- and three-rule grammars from the right-hand sides of length <= 2 over {S,A,a,b}; '
         'random arbitrary grammars (epsilon, unit, cyclic, useless rules, rhs length <= 4) and random CNF grammars (<= 5 variables); each with all words of length <= 4 over {a,b} (incl. the empty word). '
         'Observed: CFG.is_chomsky, cfg_accepts_word for every word, every cell (i,j) of cfg_cyk_matrix for CNF grammars. Non-trivial = at least one word accepted and one rejected; distinct by grammar text.')
@@ -30,7 +32,27 @@ def gen(rng, tier):
     for _ in range(300 if quick else 4000):
         gs.append(G.random_cnf(rng, rng.randint(2, 5), 2, rng.randint(2, 9), names=rng.choice([None, None, ['S', 'A', 'AB', 'B', 'BB'], ['S', 'X', 'XY', 'Y', 'YX']])))
     gs += [G.nullable_chain_cfg(rng) for _ in range(25 if quick else 500)]
+    # lower-case variable names (legal with the CFG constructor and the general parser): "terminal" must be decided by type, not by spelling
+    def lower(g):
+        m = dict(zip(g['V'], ['s', 't', 'u', 'v', 'w', 'x', 'y', 'z'][:len(g['V'])]))
+        if len(m) < len(g['V']) or any(x in g['Sigma'] for x in m.values()):
+            return g
+        return {'V': [m[v] for v in g['V']], 'Sigma': g['Sigma'], 'S': m[g['S']],
+                'R': [[m[v], [[k, (m[n] if k == 'V' else n)] for k, n in rhs]] for v, rhs in g['R']]}
+    gs = [lower(g) if i % 6 == 4 else g for i, g in enumerate(gs)]
     cases = [{'G': g, 'ws': ws} for g in gs]
+    # 26-28 declared variables and one rule with 14-16 terminals: more than ten fresh variables with two-digit indices beyond the 26 letters
+    import string
+    for _ in range(3 if quick else 40):
+        k = rng.randint(25, 27)
+        names = [x for x in string.ascii_uppercase if x != 'S'][:min(k, 25)] + ['S%d' % i for i in range(max(0, k - 25))]
+        w = [rng.randint(0, 1) for _ in range(rng.randint(14, 16))]
+        if 0 not in w or 1 not in w:
+            w[0], w[1] = 0, 1
+        rules = [['S', [['T', 'ab'[i]] for i in w]], ['S', [['T', 'a'], ['T', 'b']]]]
+        flip = list(w)
+        flip[rng.randrange(len(w))] ^= 1
+        cases.append({'G': G.mk_cfg(rules, 'S', extra_vars=names), 'ws': [w, w[:-1], w[1:], flip, [0, 1], [], w + [0]] + [w[:i] + w[i + 1:] for i in range(len(w) - 5, len(w) - 1)] + [w[:i] + [w[i]] + w[i:] for i in range(len(w) - 4, len(w) - 2)]})
     # call sequences in one process: a grammar is queried, then a sibling with the SAME rules and another start variable
     # (a new object), then the first object again after its start variable was changed in place
     for _ in range(120 if quick else 2000):
